@@ -47,3 +47,6 @@ Require Import UV.C15.BackTrace.
 Definition bt_ (key : list int) (hit : int) (t : option (N * N * N)) : pbt := (map n_ key, n_ hit, t).
 Definition mk_bcase (k : case) (func : list N) (printed : list pbt) : bcase :=
   {| bk_case := k; bk_func := func; bk_printed := printed |}.
+
+Definition mk_acase (k : case) (total : N) (lines : list (list N)) : acase :=
+  {| ak_case := k; ak_total := total; ak_lines := lines |}.
